@@ -38,6 +38,8 @@ def build(repo, findings):
         C('C09 only-the-named-variable-is-touched', '%s.remove(variable_name@) =~= %s.remove(variable_name@)' % (V1, V0)),
         C('C09 a-temporary-assignment-creates-its-own-variable-instead-of-writing-to-the-one-it-shadows', '''(%s.contains_key(variable_name@) && required_scope is Some && required_scope->Some_0 != %s[variable_name@].0 && res is Ok)
     ==> %s.len() == %s.len() + 1''' % (V0, V0, A1, A0)),
+        C('C09 an-appending-temporary-assignment-starts-from-the-value-of-the-variable-it-shadows', '''(%s.contains_key(variable_name@) && required_scope is Some && required_scope->Some_0 != %s[variable_name@].0
+    && assignment.append && array_index is None && res is Ok) ==> %s.last().1.value == assigned(%s[variable_name@].1.value, new_value, true)''' % (V0, V0, A1, V0)),
         C('C09 assigning-to-the-visible-variable-never-drops-its-export-attribute', '''(%s.contains_key(variable_name@) && res is Ok && %s == %s) ==> %s.contains_key(variable_name@)
     && %s[variable_name@].1.readonly == %s[variable_name@].1.readonly
     && %s[variable_name@].1.exported == (%s[variable_name@].1.exported || export || (export_variables_on_modification && array_index is None && !(new_value is Array)))''' % (V0, A1, A0, V1, V1, V0, V1, V0)),
@@ -47,6 +49,7 @@ def build(repo, findings):
     u.add(f)
     u.raw(FOOTER)
     u.assume('external_body', 'Env::get_mut (the visible variable and its scope), Env::add (logged), ShellVariable::new / assign / assign_at_index (readonly guard first: U34; attributes left alone: ASSUMED), ShellValue::indexed_array_from_literals, error::unimp')
+    u.assume('uninterp', 'assigned (what ShellVariable::assign makes of a value)')
     u.assume('stub', 'the first half of apply_assignment (expansion: U43; subscript evaluation) and Env::add itself are NOT verified here')
     u.expected_min_fns = 1
     u.counterexample = replay_scripts(repo, [
